@@ -585,7 +585,7 @@ func runSess(c *corr.Ctx, sc *Scenario) {
 			}
 			out := "drop"
 			if udp {
-				pc.Deliver(&net.UDPAddr{IP: ip, Port: op.Port}, payload)
+				pc.Deliver(&net.UDPAddr{IP: ip, Port: op.Port, Zone: op.Zone}, payload)
 				after := w.mediaBytes()
 				var hit [][2]int
 				for k, v := range after {
@@ -608,6 +608,11 @@ func runSess(c *corr.Ctx, sc *Scenario) {
 						port++
 					}
 					st := si.ss.State()
+					if a.IP.Equal(ip) && okp && port == op.Port && a.Zone != op.Zone {
+						viol(c, sc, "UDP datagrams are delivered to a session only if they come from the IP address negotiated for that session (a scoped IPv6 address includes its zone)",
+							"dgram-foreign-zone-delivered", fmt.Sprintf("op %d: %s datagram from %s%%%s:%d reached session %d whose author is %s%%%s",
+								i, op.Chan, ip, op.Zone, op.Port, si.idx, a.IP, a.Zone))
+					}
 					if !a.IP.Equal(ip) || !okp || port != op.Port ||
 						(st != gortsplib.ServerSessionStatePlay && st != gortsplib.ServerSessionStateRecord) {
 						viol(c, sc, "UDP datagrams are delivered to a session only if they come from the IP address and port negotiated for that session",
@@ -628,7 +633,11 @@ func runSess(c *corr.Ctx, sc *Scenario) {
 					}
 				}
 			}
-			cs.Ops = append(cs.Ops, fmt.Sprintf("peer xdgram %s %s %d", op.Chan, op.IP, op.Port))
+			z := op.Zone
+			if z == "" {
+				z = "-"
+			}
+			cs.Ops = append(cs.Ops, fmt.Sprintf("peer xdgram %s %s %d %s", op.Chan, op.IP, op.Port, z))
 			cs.Impl = append(cs.Impl, out)
 
 		default:
